@@ -128,6 +128,9 @@ def eval_hist(task):
         out["scope"] = scope
         ms = rp.st
         msk = norm.state_key(ms)
+        fn_ = ms.fn
+        out["mcls"] = (ms.top.phase, ms.top.gcount, ms.top.nfuncs, (fn_.stage, fn_.can_else, len(fn_.stack), min(fn_.ndecl, 2),
+                       min(fn_.nlines, 3)) if fn_ else None)
         out["mkey"] = digest(msk)
         out["key"] = digest((msk, dump))
         out["ikey"] = digest(dump)
